@@ -240,11 +240,11 @@ def Cst.wf : Cst → Bool
   | .set r rg its cg => (r || rg.isEmpty) && isGap rg && its.wf .set cg && isGap cg
   | .paren its cg => its.wf .paren cg && its.countElems == 1 && isGap cg
   | .app f cs g a => f.wf && gcOk cs g && isGap g && a.wf
-  -- `with`: the three inner gaps are whitespace only. (The comment paths of `WithStatement.from_cst`
-  -- and the whole of `Assertion.from_cst` / `rebuild` are modelled, see `FromCst.lean` / `Rebuild.lean`,
+  -- `with` / `assert`: the three inner gaps are whitespace only. (The comment paths of
+  -- `WithStatement.from_cst` / `Assertion.from_cst` are modelled, see `FromCst.lean` / `Rebuild.lean`,
   -- and tied to the implementation — `Cst.modelled` below —, but are outside the theorems' fragment.)
-  | .kw w c1 g1 h c2 g2 c3 g3 b =>
-    w && c1.isEmpty && isGap g1 && h.wf && c2.isEmpty && isGap g2 && c3.isEmpty && isGap g3 && b.wf
+  | .kw _ c1 g1 h c2 g2 c3 g3 b =>
+    c1.isEmpty && isGap g1 && h.wf && c2.isEmpty && isGap g2 && c3.isEmpty && isGap g3 && b.wf
 /-- `closeGap`: the whitespace after the last item (in front of the closing token / the end of the
     file) -/
 def Items.wf : Items → Mode → Text → Bool
@@ -258,8 +258,8 @@ def Items.wf : Items → Mode → Text → Bool
 end
 
 mutual
-/-- what the MODEL covers (a superset of `wf`, the theorems' fragment): `wf` with `assert` allowed and
-    with comments allowed in the inner gaps of `with` / `assert`. The driver answers `roundtrip`
+/-- what the MODEL covers (a superset of `wf`, the theorems' fragment): `wf` with comments allowed in
+    the inner gaps of `with` / `assert`. The driver answers `roundtrip`
     requests on this set, so the transliterations of `WithStatement` / `Assertion` are compared with
     the implementation also where no theorem speaks about them yet. -/
 def Cst.modelled : Cst → Bool
